@@ -40,10 +40,16 @@ func runC18(c *Ctx, r *Report, tier string) {
 
 	// SORTED
 	for _, ret := range returnsOf(cp) {
-		path, ok := c.MustPass(cp, isInstr(ret), func(in ssa.Instruction) bool {
+		res := c.resolve(ret.Results[0])
+		q := &PathQ{c: c, Fn: cp, CutIn: func(in ssa.Instruction) bool {
 			call, ok := in.(*ssa.Call)
-			return ok && c.calleeName(call.Common()) == "sort.Sort" && c.resolve(call.Call.Args[0]) == c.resolve(ret.Results[0])
-		}, nil, nil)
+			return ok && c.calleeName(call.Common()) == "sort.Sort" && c.resolve(call.Call.Args[0]) == res
+		}, CutEdge: func(b *ssa.BasicBlock, si int) bool {
+			// a list of at most one item is sorted already
+			return atMostOneEdge(b, si, func(v ssa.Value) bool { return c.resolve(v) == res })
+		}}
+		path, found := q.Reach(entrySite(cp), factUnknown, isInstr(ret))
+		ok := !found
 		r.Check(ok, "SORTED", cpn, "result sorted before return", c.ipos(ret), "every path passes sort.Sort(completions(ret)) on the returned slice", "unsorted return: "+pathStr(path))
 	}
 
@@ -111,7 +117,7 @@ func runC18(c *Ctx, r *Report, tier string) {
 	r.Check(nOff == 2, "FILTER", on, "offer sites", c.pos(con.Pos()), "long and short", fmt.Sprintf("%d", nOff))
 	ccn := c.fname(cc)
 	for _, in := range c.instrs(cc, c.isCallTo("append")) {
-		cmd := "idx(Command.commands(parseState.command(P1)), (phi{(phi↺ + 1) | -1} + 1))"
+		cmd := "idx(Command.commands(parseState.command(P1)), phi{(phi↺ + 1) | 0})"
 		_, a := c.Requires(cc, isInstr(in), litIs("Group.Hidden(Command.Group("+cmd+"))", false), nil)
 		_, b := c.Requires(cc, isInstr(in), litIs("call:strings.HasPrefix(Command.Name("+cmd+"), P2)", true), nil)
 		var extra []string
